@@ -123,7 +123,7 @@ public:
          if ( sqrtt * sqrtt < p )
              throw new std::runtime_error("error calculating square");
 #endif
-        while (t <= sqrtt) {
+        while (t * t < p) {
             if (p % t == zero)
                 return false;
             t++;
